@@ -313,6 +313,47 @@ example : (lex Cfg.fixed (lit "abc\n  <%include\n bogus='1'/>")).outcome = .ok
 theorem path_independent (cfg : Cfg) (ck : Checks) (p1 p2 : Path) (text : Str) (filename : Option Str) (uri1 uri2 : Str) :
     constructError cfg ck p1 text filename uri1 = constructError cfg ck p2 text filename uri2 := rfl
 
+/-- the regenerated fact about `TemplateLookup._check` / `_load` (mako/lookup.py): the reload of a changed file
+    converts only exceptions that are no compile errors (`OSError`), and `_load` re-raises what `Template(...)`
+    raises.  A widened handler breaks this obligation by name. -/
+theorem reload_converts_no_compile_error :
+    Generated.ErrPos.checkConverts.any catchesCompileError = false ∧ Generated.ErrPos.loadReraises = true := by decide
+
+/-- **… also when the template is re-compiled by a lookup that has already served an older version of the file**
+    (`get_template` → `_check` → `_load`, with or without a module directory): the caller sees the very
+    SyntaxException / CompileException of the direct compilation – for every handler list of `_check` that cannot
+    catch a compile error … -/
+theorem path_independent_reload_of (handlers : List String) (reraises : Bool)
+    (hh : handlers.any catchesCompileError = false) (hr : reraises = true)
+    (cfg : Cfg) (ck : Checks) (p1 p2 : Path) (text : Str) (filename : Option Str) (uri1 uri2 : Str) :
+    constructOutcomeWith handlers reraises cfg ck p1 text filename uri1
+      = constructOutcomeWith handlers reraises cfg ck p2 text filename uri2 := by
+  have key : ∀ (p : Path) (uri : Str), constructOutcomeWith handlers reraises cfg ck p text filename uri
+      = (compileError cfg ck text filename uri false).map Raised.compileError := by
+    intro p uri
+    have hc : ∀ e, throughCheck handlers reraises e = Raised.compileError e := by
+      intro e; simp [throughCheck, hh, hr]
+    cases p <;> simp only [constructOutcomeWith, constructError, compileError, hc]
+    · congr 1; funext e; exact hc e
+  rw [key p1 uri1, key p2 uri2]
+  rfl
+
+example : ["OSError"].any catchesCompileError = false := by decide
+
+/-- … in particular for the code in /repo -/
+theorem path_independent_all_paths (cfg : Cfg) (ck : Checks) (p1 p2 : Path) (text : Str) (filename : Option Str)
+    (uri1 uri2 : Str) :
+    constructOutcome cfg ck p1 text filename uri1 = constructOutcome cfg ck p2 text filename uri2 :=
+  path_independent_reload_of _ _ reload_converts_no_compile_error.1 reload_converts_no_compile_error.2
+    cfg ck p1 p2 text filename uri1 uri2
+
+/-- a `_check` that converts `Exception` hides the compile error of a reloaded template (the seeded change) -/
+theorem path_independent_reload_counterexample :
+    constructOutcomeWith ["Exception"] true Cfg.fixed ⟨fun _ => none, fun _ => none⟩ (.reload false) (lit "a\n${x") none []
+      = some .converted
+    ∧ constructOutcomeWith ["Exception"] true Cfg.fixed ⟨fun _ => none, fun _ => none⟩ .lookup (lit "a\n${x") none []
+      = some (.compileError ⟨.syntaxException, 2, 1, none, lit "a\n${x"⟩) := by decide +kernel
+
 /-- … and it names the template: `filename` and `source` are the caller's -/
 theorem error_names_template (cfg : Cfg) (ck : Checks) (path : Path) (text : Str) (filename : Option Str) (uri : Str)
     (e : ExcFields) (h : constructError cfg ck path text filename uri = some e) :
